@@ -12,16 +12,22 @@ def showVB (r : Except Fault (Val × Bool)) : String :=
   | .ok (v, ok) => s!"{short v}:{b01 ok}"
   | .error f => f.toString
 
+def errStr : Option Nat → String
+  | none => "-"
+  | some e => s!"E{e}"
+
 /-- observation of the model state, same format as harness `obsStack` -/
 def obsModel (s : Stk) : String :=
   let n := s.ulen
   let idx := (range (-n - 1) (n + 1)).map (fun i => showVB (s.Index i))
-  let line := s!"L{n} [{" ".intercalate idx}] F{showVB s.Front} B{showVB s.Back} E{b01 (n == 0)} c{s.Cap} a{s.Avail} u{b01 s.isFull}"
+  let line := s!"L{n} [{" ".intercalate idx}] F{showVB s.Front} B{showVB s.Back} E{b01 (n == 0)} c{s.Cap} a{s.Avail} u{b01 s.isFull} N{b01 s.CanNest} G{b01 s.IsNesting} R{errStr s.cfg.err}"
   if (line.splitOn "PANIC").length > 1 || (line.splitOn "CFG").length > 1 then "PANIC" else line
 
 structure SpecSt where
   c : ListSpec.Conf
   l : List Val
+  ppf : Option Nat := none
+  err : Option Nat := none
 
 def obsSpec (st : SpecSt) : String :=
   let n : Int := st.l.length
@@ -30,13 +36,19 @@ def obsSpec (st : SpecSt) : String :=
   let cap : Int := match st.c.cap with | none => -1 | some k => k
   let avail : Int := match st.c.cap with | none => -1 | some k => (k : Int) - n
   let full : Bool := match st.c.cap with | none => false | some k => decide ((k : Int) = n)
-  s!"L{n} [{" ".intercalate idx}] F{sh (ListSpec.front st.c.fifo st.l)} B{sh (ListSpec.back st.c.fifo st.l)} E{b01 (n == 0)} c{cap} a{avail} u{b01 full}"
+  s!"L{n} [{" ".intercalate idx}] F{sh (ListSpec.front st.c.fifo st.l)} B{sh (ListSpec.back st.c.fifo st.l)} E{b01 (n == 0)} c{cap} a{avail} u{b01 full} N{b01 (!st.c.nnest)} G{b01 (st.l.any Stk.countsAsNested)} R{errStr st.err}"
 
 inductive HOp where
   | list (op : ListOp)
   | fifo
   | neg (b : Bool)
   | fwd (b : Bool)
+  | nnest (b : Bool)
+  | ro (b : Bool)
+  | ppol (p : Nat)
+  | clrerr
+  | xferto (src : Val)
+  | xfer (dest : Val)
   | bad
 
 def parseVals' (ts : List String) : List Val :=
@@ -57,6 +69,12 @@ def parseHOp (ts : List String) : HOp :=
   | ["fifo"] => .fifo
   | ["neg", b] => .neg (b == "1")
   | ["fwd", b] => .fwd (b == "1")
+  | ["nnest", b] => .nnest (b == "1")
+  | ["ro", b] => .ro (b == "1")
+  | ["ppol", p] => .ppol (toNat p)
+  | ["clrerr"] => .clrerr
+  | "xferto" :: rest => .xferto (parseVal rest).1
+  | "xfer" :: rest => .xfer (parseVal rest).1
   | _ => .bad
 
 def showOut (op : ListOp) (o : Out) : String :=
@@ -78,7 +96,48 @@ partial def histModel (s : Stk) (ops : List HOp) (acc : List String) : List Stri
     | .fifo => let s' := s.setFIFO true; histModel s' rest (s!"- {obsModel s'}" :: acc)
     | .neg b => let s' := s.setState Gen.flag_negidx (some b); histModel s' rest (s!"- {obsModel s'}" :: acc)
     | .fwd b => let s' := s.setState Gen.flag_fwdidx (some b); histModel s' rest (s!"- {obsModel s'}" :: acc)
+    | .nnest b => let s' := s.setState Gen.flag_nnest (some b); histModel s' rest (s!"- {obsModel s'}" :: acc)
+    | .ro b => let s' := s.setState Gen.flag_ronly (some b); histModel s' rest (s!"- {obsModel s'}" :: acc)
+    | .ppol p => let s' := s.SetPushPolicy (if p == 0 then none else some p); histModel s' rest (s!"- {obsModel s'}" :: acc)
+    | .clrerr => let s' := s.SetErr none; histModel s' rest (s!"- {obsModel s'}" :: acc)
+    | .xferto src =>
+      match src with
+      | .stk _ c xs =>
+        let sv : Stk := { cfg := c, xs := xs }
+        match sv.Transfer interp (.stk .native s.cfg s.xs) with
+        | (.stk _ c' xs', ok) =>
+          let s' : Stk := { cfg := c', xs := xs' }
+          histModel s' rest (s!"{b01 ok} src\{{obsModel sv}} {obsModel s'}" :: acc)
+        | _ => ("BADOP" :: acc).reverse
+      | _ => ("BADOP" :: acc).reverse
+    | .xfer dest =>
+      let (d', ok) := s.Transfer interp dest
+      let d := match d' with
+        | .stk _ c' xs' => obsModel { cfg := c', xs := xs' }
+        | _ => "-"
+      histModel s rest (s!"{b01 ok} dst\{{d}} {obsModel s}" :: acc)
     | .bad => ("BADOP" :: acc).reverse
+
+/-- spec-side push, with or without a policy -/
+def specPush (st : SpecSt) (vs : List Val) : SpecSt :=
+  if st.c.ronly then st else
+  match st.ppf with
+  | none => { st with l := (ListSpec.apply (st.c.opts st.l) st.l (.push vs)).1 }
+  | some p =>
+    let r := ListSpec.pushPol (interp p) (st.c.opts st.l).room vs
+    { st with l := st.l ++ r.1, err := match r.2 with | some e => some e | none => st.err }
+
+def specOfStk (s : Stk) : SpecSt := { c := s.conf, l := s.xs, ppf := s.cfg.ppf, err := s.cfg.err }
+
+/-- spec-side Transfer of `src` into an (initialised, writable) destination: all or report failure -/
+def specTransfer (src : List Val) (dst : SpecSt) : SpecSt × Bool :=
+  match (dst.c.opts dst.l).room with
+  | some r => if r < src.length then (dst, false) else
+      let d' := src.foldl (fun d v => specPush d [v]) dst
+      (d', d'.l.length == dst.l.length + src.length)
+  | none =>
+      let d' := src.foldl (fun d v => specPush d [v]) dst
+      (d', d'.l.length == dst.l.length + src.length)
 
 partial def histSpec (st : SpecSt) (ops : List HOp) (acc : List String) : List String :=
   match ops with
@@ -86,15 +145,43 @@ partial def histSpec (st : SpecSt) (ops : List HOp) (acc : List String) : List S
   | op :: rest =>
     match op with
     | .list lop =>
-      let (l', o) := ListSpec.apply (st.c.opts st.l) st.l lop
-      let st' := { st with l := l' }
-      histSpec st' rest (s!"{showOut lop o} {obsSpec st'}" :: acc)
+      match lop with
+      | .push vs =>
+        let st' := specPush st vs
+        histSpec st' rest (s!"- {obsSpec st'}" :: acc)
+      | _ =>
+        let (l', o) := ListSpec.apply (st.c.opts st.l) st.l lop
+        let st' := { st with l := l' }
+        histSpec st' rest (s!"{showOut lop o} {obsSpec st'}" :: acc)
     | .fifo => let st' := if st.c.ronly then st else { st with c := { st.c with fifo := true } }
                histSpec st' rest (s!"- {obsSpec st'}" :: acc)
     | .neg b => let st' := if st.c.ronly then st else { st with c := { st.c with neg := b } }
                 histSpec st' rest (s!"- {obsSpec st'}" :: acc)
     | .fwd b => let st' := if st.c.ronly then st else { st with c := { st.c with fwd := b } }
                 histSpec st' rest (s!"- {obsSpec st'}" :: acc)
+    | .nnest b => let st' := if st.c.ronly then st else { st with c := { st.c with nnest := b } }
+                  histSpec st' rest (s!"- {obsSpec st'}" :: acc)
+    | .ro b => let st' := { st with c := { st.c with ronly := b } }
+               histSpec st' rest (s!"- {obsSpec st'}" :: acc)
+    | .ppol p => let st' := if st.c.ronly then st else { st with ppf := if p == 0 then none else some p }
+                 histSpec st' rest (s!"- {obsSpec st'}" :: acc)
+    | .clrerr => let st' := { st with err := none }
+                 histSpec st' rest (s!"- {obsSpec st'}" :: acc)
+    | .xferto src =>
+      match src with
+      | .stk _ c xs =>
+        let sv := specOfStk { cfg := c, xs := xs }
+        let (st', ok) := if st.c.ronly then (st, false) else specTransfer xs st
+        histSpec st' rest (s!"{b01 ok} src\{{obsSpec sv}} {obsSpec st'}" :: acc)
+      | _ => ("BADOP" :: acc).reverse
+    | .xfer dest =>
+      let (d, ok) : String × Bool := match dest with
+        | .stk _ c xs =>
+          let dv := specOfStk { cfg := c, xs := xs }
+          if dv.c.ronly then (obsSpec dv, false)
+          else let (d', ok) := specTransfer st.l dv; (obsSpec d', ok)
+        | _ => ("-", false)
+      histSpec st rest (s!"{b01 ok} dst\{{d}} {obsSpec st}" :: acc)
     | .bad => ("BADOP" :: acc).reverse
 
 /-- does every position argument address an existing element (C01's "addressing existing positions")? -/
@@ -109,10 +196,20 @@ partial def histInScope (st : SpecSt) (ops : List HOp) : Bool :=
           | .replace _ i => ListSpec.inRange st.l i
           | .swap i j => ListSpec.inRange st.l i && ListSpec.inRange st.l j
           | _ => true
-        ({ st with l := (ListSpec.apply (st.c.opts st.l) st.l lop).1 }, ok)
+        (match lop with
+         | .push vs => specPush st vs
+         | _ => { st with l := (ListSpec.apply (st.c.opts st.l) st.l lop).1 }, ok)
       | .fifo => (if st.c.ronly then st else { st with c := { st.c with fifo := true } }, true)
       | .neg b => (if st.c.ronly then st else { st with c := { st.c with neg := b } }, true)
       | .fwd b => (if st.c.ronly then st else { st with c := { st.c with fwd := b } }, true)
+      | .nnest b => (if st.c.ronly then st else { st with c := { st.c with nnest := b } }, true)
+      | .ro b => ({ st with c := { st.c with ronly := b } }, true)
+      | .ppol p => (if st.c.ronly then st else { st with ppf := if p == 0 then none else some p }, true)
+      | .clrerr => (st, true)
+      | .xferto src => (match src with
+          | .stk _ _ xs => if st.c.ronly then st else (specTransfer xs st).1
+          | _ => st, true)
+      | .xfer _ => (st, true)
       | .bad => (st, false)
     ok && histInScope st' rest
 
@@ -127,8 +224,8 @@ def runHist (payload : String) : String × String × String :=
       | [_, o] => if o.trimAscii.toString == "" then [] else (o.splitOn " ; ").map (fun t => parseHOp (words t))
       | _ => []
     let m := histModel s ops [s!"init {obsModel s}"]
-    let sp := histSpec { c := s.conf, l := xs } ops [s!"init {obsSpec { c := s.conf, l := xs }}"]
-    (" ; ".intercalate m, " ; ".intercalate sp, if histInScope { c := s.conf, l := xs } ops then "inscope" else "oos")
+    let sp := histSpec (specOfStk s) ops [s!"init {obsSpec (specOfStk s)}"]
+    (" ; ".intercalate m, " ; ".intercalate sp, if histInScope (specOfStk s) ops then "inscope" else "oos")
   | _ => ("BADCASE", "BADCASE", "")
 
 end Stackage.Driver
